@@ -6,6 +6,10 @@
 //!                         P ::= (t xTEXT) | (h xLABEL F)   F ::= - | N (index into FORMATTERS)
 //!   (render T (props (xKEY V)…) PK FAIL)    V ::= (s xSTR) | (i N) | (b BOOL)
 //!                         PK ::= slice | (and K) | erased | with      FAIL ::= - | N
+//!   (macro IDX xSRC (props (xKEY V)…) (ext (xLABEL xFLAGS)…))
+//!                         fixture number IDX of `fixtures::all()`: SRC is the source text of its template literal
+//!                         (between the quotes), the props are the values its holes / extra pairs evaluate to, `ext`
+//!                         the `#[emit::fmt]` flags given on extra pairs (flags inside the literal are in SRC)
 
 use emit::template::{self, Formatter, Part};
 use emit::{Props, Template, Value};
@@ -16,6 +20,7 @@ pub fn streams() -> Vec<Stream> {
     vec![
         Stream { name: "c16_eq", gen: gen_eq, run: run_eq },
         Stream { name: "c16_render", gen: gen_render, run: run_render },
+        Stream { name: "c16_macro", gen: gen_macro, run: run_macro },
     ]
 }
 
@@ -257,7 +262,7 @@ fn run_eq(line: &str) -> String {
 // ------------------------------------------------------------------ c16_render
 
 #[derive(Clone, Debug)]
-enum V {
+pub enum V {
     Str(String),
     Int(i64),
     Bool(bool),
@@ -443,6 +448,204 @@ fn run_render(line: &str) -> String {
                 PropsKind::With => observe(tpl.render(emit::Empty).with_props(&vals[..]), np, fail_at),
             }
         }))
+    })()
+    .unwrap_or_else(|| "bad-case".into())
+}
+
+// ------------------------------------------------------------------ c16_macro
+
+fn show_parts(t: &Template) -> String {
+    t.parts()
+        .map(|p| {
+            if let Some(text) = p.as_text() {
+                format!("T{}", hcommon::hex(text.get().as_bytes()))
+            } else {
+                format!(
+                    "H{}{}",
+                    hcommon::hex(p.label().map(|l| l.get().to_string()).unwrap_or_default().as_bytes()),
+                    if p.formatter().is_some() { "+" } else { "" }
+                )
+            }
+        })
+        .collect::<Vec<_>>()
+        .join(",")
+}
+
+/// What one macro entry point produced: the template's parts, the rendered message, the captured pairs.
+#[derive(Debug, PartialEq, Clone)]
+pub struct Seen {
+    parts: String,
+    msg: String,
+    props: Vec<(String, String)>,
+}
+
+fn see<P: Props>(e: &emit::Event<P>) -> Seen {
+    let mut props = Vec::new();
+    let _ = e.props().for_each(|k, v| {
+        props.push((k.get().to_string(), v.to_string()));
+        std::ops::ControlFlow::Continue(())
+    });
+    props.sort();
+    Seen { parts: show_parts(e.tpl()), msg: e.msg().to_string(), props }
+}
+
+pub struct Fixture {
+    /// `stringify!` of the literal token: its source text including the quotes
+    src: &'static str,
+    declared: fn() -> Vec<(&'static str, V)>,
+    ext: &'static [(&'static str, &'static str)],
+    /// (`evt!`, `format!`, `emit!` through a capturing runtime, `tpl!` when the literal is legal there)
+    observe: fn() -> (Seen, String, Vec<Seen>, Option<String>),
+    /// `std::format!` on the same literal, where std accepts it
+    std: Option<fn() -> String>,
+}
+
+#[allow(non_upper_case_globals, dead_code)]
+mod fixtures {
+    use super::{see, show_parts, Fixture, Seen, V};
+    use std::cell::RefCell;
+
+    // what the holes of the fixtures refer to (items, so that macro hygiene does not hide them)
+    const user: &str = "Rust";
+    const x: i64 = 42;
+    const y: i64 = -7;
+    const s: &str = "ab";
+    const b: bool = true;
+    const e: &str = "é🎈";
+    const r#type: i64 = 1;
+
+    #[derive(Debug)]
+    struct Pt {
+        a: i32,
+    }
+
+    macro_rules! fx {
+        ($std:tt $tpl:tt; ($lit:tt $(, $($rest:tt)*)?); [$($k:literal : $v:expr),*]; [$($el:literal : $ef:literal),*]) => {
+            Fixture {
+                src: stringify!($lit),
+                declared: || vec![$(($k, $v)),*],
+                ext: &[$(($el, $ef)),*],
+                observe: || {
+                    let seen = see(&emit::evt!($lit $(, $($rest)*)?));
+                    let formatted = emit::format!($lit $(, $($rest)*)?);
+                    let emitted: RefCell<Vec<Seen>> = RefCell::new(Vec::new());
+                    {
+                        let rt = emit::runtime::Runtime::new()
+                            .with_emitter(emit::emitter::from_fn(|evt| emitted.borrow_mut().push(see(&evt))));
+                        emit::emit!(rt: &rt, $lit $(, $($rest)*)?);
+                    }
+                    (seen, formatted, emitted.into_inner(), fx!(@tpl $tpl $lit))
+                },
+                std: fx!(@std $std $lit),
+            }
+        };
+        (@std std $lit:tt) => { Some(|| std::format!($lit)) };
+        (@std nostd $lit:tt) => { None };
+        (@tpl tpl $lit:tt) => { Some(show_parts(&emit::tpl!($lit))) };
+        (@tpl notpl $lit:tt) => { None };
+    }
+
+    fn st(v: &str) -> V {
+        V::Str(v.to_string())
+    }
+
+    pub fn all() -> Vec<Fixture> {
+        vec![
+            fx!(std tpl; ("plain text"); []; []),
+            fx!(std tpl; (""); []; []),
+            fx!(std tpl; ("Hello, {user}"); ["user": st("Rust")]; []),
+            fx!(std tpl; ("{{}}"); []; []),
+            fx!(std tpl; ("{{{x}}}"); ["x": V::Int(42)]; []),
+            fx!(std tpl; ("a {{b}} {x} }}{{ c"); ["x": V::Int(42)]; []),
+            fx!(std tpl; ("{x}{y}"); ["x": V::Int(42), "y": V::Int(-7)]; []),
+            fx!(std tpl; ("é{x}ü🎈{y}한"); ["x": V::Int(42), "y": V::Int(-7)]; []),
+            fx!(std tpl; ("  spaces  {x}  "); ["x": V::Int(42)]; []),
+            fx!(std tpl; ("{{{{{b}}}}}{s}"); ["b": V::Bool(true), "s": st("ab")]; []),
+            fx!(nostd tpl; ("{ x }"); ["x": V::Int(42)]; []),
+            fx!(nostd tpl; ("{r#type}"); ["type": V::Int(1)]; []),
+            fx!(nostd notpl; ("sum {z: 1 + 1}"); ["z": V::Int(2)]; []),
+            fx!(nostd notpl; ("str {q: \"in}ner{\"} end"); ["q": st("in}ner{")]; []),
+            fx!(nostd notpl; ("ch {c: '}'}{d: '{'}"); ["c": st("}"), "d": st("{")]; []),
+            fx!(nostd notpl; ("blk {z: { let q = 2; q * 3 }}!"); ["z": V::Int(6)]; []),
+            fx!(nostd notpl; ("{z: 1}{{{w: 2}}}"); ["z": V::Int(1), "w": V::Int(2)]; []),
+            fx!(nostd notpl; ("{#[emit::fmt(\">08\")] x}"); ["x": V::Int(42)]; []),
+            fx!(nostd notpl; ("{#[emit::fmt(\"<6\")] s}|"); ["s": st("ab")]; []),
+            fx!(nostd notpl; ("{#[emit::fmt(\"^7\")] b}|"); ["b": V::Bool(true)]; []),
+            fx!(nostd notpl; ("{#[emit::fmt(\"?\")] s}"); ["s": st("ab")]; []),
+            fx!(nostd notpl; ("{#[emit::fmt(\".1\")] s}"); ["s": st("ab")]; []),
+            fx!(nostd notpl; ("{#[emit::fmt(\"*^9\")] e}"); ["e": st("é🎈")]; []),
+            fx!(nostd notpl; ("{#[emit::fmt(\"<08\")] y}"); ["y": V::Int(-7)]; []),
+            fx!(nostd notpl; ("{#[emit::fmt(\"\")] y} {#[emit::fmt(\"3\")] x}"); ["x": V::Int(42), "y": V::Int(-7)]; []),
+            fx!(nostd notpl; ("{#[emit::as_debug] p: Pt { a: 1 }}"); ["p": st("Pt { a: 1 }")]; []),
+            fx!(nostd notpl; ("{#[emit::as_debug] #[emit::fmt(\">5\")] o: 5u8}|"); ["o": V::Int(5)]; []),
+            fx!(nostd notpl; ("{x} left", #[emit::fmt("<5")] x: 7); ["x": V::Int(7)]; ["x": "<5"]),
+            fx!(nostd notpl; ("{x} and more", extra: "unused", x: 8); ["x": V::Int(8), "extra": st("unused")]; []),
+            fx!(nostd notpl; ("no holes", k: false); ["k": V::Bool(false)]; []),
+            // backslash escapes in the literal
+            fx!(std tpl; ("tab\there"); []; []),
+            fx!(std tpl; ("quote \" q {x}"); ["x": V::Int(42)]; []),
+            fx!(std tpl; ("back\\slash\n{s}\r\0\x41\'"); ["s": st("ab")]; []),
+        ]
+    }
+}
+
+fn fixture_case(i: usize, f: &Fixture) -> String {
+    let src = &f.src[1..f.src.len() - 1];
+    let props = (f.declared)().iter().map(|(k, v)| Sexp::list(vec![Sexp::str(k), show_val(v)])).collect();
+    let ext = f.ext.iter().map(|(l, fl)| Sexp::list(vec![Sexp::str(l), Sexp::str(fl)])).collect();
+    Sexp::tagged("macro", vec![Sexp::num(i), Sexp::str(src), Sexp::tagged("props", props), Sexp::tagged("ext", ext)]).to_string()
+}
+
+fn gen_macro(_rng: &mut Rng, _tier: Tier, _n: usize) -> Vec<String> {
+    fixtures::all().iter().enumerate().map(|(i, f)| fixture_case(i, f)).collect()
+}
+
+fn display_val(v: &V) -> String {
+    match v {
+        V::Str(s) => s.clone(),
+        V::Int(i) => i.to_string(),
+        V::Bool(b) => b.to_string(),
+    }
+}
+
+fn run_macro(line: &str) -> String {
+    (|| -> Option<String> {
+        let sx = Sexp::parse(line)?;
+        let (tag, args) = sx.as_tagged()?;
+        if tag != "macro" || args.len() != 4 {
+            return None;
+        }
+        let all = fixtures::all();
+        let i = args[0].as_usize()?;
+        let f = all.get(i)?;
+        // the case must be this fixture's own line (the fixtures are compiled in; nothing else can be run)
+        if fixture_case(i, f) != sx.to_string() {
+            return None;
+        }
+        let (evt, formatted, emitted, tpl) = (f.observe)();
+        let out = format!("parts={} msg={}", evt.parts, hcommon::hex_atom(evt.msg.as_bytes()));
+        let mut fail = None;
+        let mut declared: Vec<(String, String)> = (f.declared)().iter().map(|(k, v)| (k.to_string(), display_val(v))).collect();
+        declared.sort();
+        if evt.props != declared {
+            fail = Some(format!("captured-props-differ-from-declared({:?})", evt.props));
+        } else if formatted != evt.msg {
+            fail = Some(format!("format!-differs-from-evt!-msg({})", hcommon::hex(formatted.as_bytes())));
+        } else if emitted.len() != 1 || emitted[0] != evt {
+            fail = Some(format!("emit!-differs-from-evt!({:?})", emitted));
+        } else if tpl.as_ref().map(|t| *t != evt.parts).unwrap_or(false) {
+            fail = Some(format!("tpl!-differs-from-evt!({})", tpl.unwrap()));
+        } else if let Some(std) = f.std {
+            // a macro-built template renders like the same literal given to std's formatting macros
+            let expected = std();
+            if expected != evt.msg {
+                fail = Some(format!("differs-from-std-format-of-the-same-literal({})", hcommon::hex(expected.as_bytes())));
+            }
+        }
+        Some(match fail {
+            None => out,
+            Some(f) => format!("{}\tFAIL:{}", out, f),
+        })
     })()
     .unwrap_or_else(|| "bad-case".into())
 }
